@@ -140,6 +140,17 @@ Theorem C05_view_rejected : forall cfg t o ns e,
 Proof. exact view_rejected. Qed.
 Print Assumptions C05_view_rejected.
 
+(* "previous period's pilots": column t-1 of the pilot matrix is what the charging step of period t-1
+   read, and nothing rewrites it afterwards — a schedule applied in period t writes columns >= t only;
+   charging and storing rates never write the pilot matrix. *)
+Theorem C05_pilot_history_immutable : forall cfg t o ns sch,
+  (forall ns', num_apply cfg t ns sch = Ok ns' ->
+     forall c idx, c < t -> pilot_at ns' idx c = pilot_at ns idx c) /\
+  (forall ns', num_charge cfg t o ns = Ok ns' -> ns_pilots ns' = ns_pilots ns) /\
+  ns_pilots (num_store cfg t o ns) = ns_pilots ns.
+Proof. exact pilots_immutable. Qed.
+Print Assumptions C05_pilot_history_immutable.
+
 (* With a valid session set (C01), at every invocation (t, v) of a completed run the view is that of a
    state s1 (after the period's events) in which station i holds session y iff y is a given session
    on that station with arrival y <= t < departure y. *)
